@@ -117,6 +117,10 @@ def spine(tier, seed):
     for ty in D.TYPES:
         out.append({'prod': 'B-type', 'shape': [2, 2], 'mask': 0b0110, 'rot': rot, 'type': ty,
                     'layout': 'csr'})
+    for shape, vals in D.CANCEL:       # rows / columns whose mixed-sign values cancel
+        for lay in ('csr', 'csc', 'unsorted'):
+            out.append({'prod': 'B-type', 'shape': list(shape), 'mask': (1 << len(vals)) - 1, 'vals': list(vals),
+                        'layout': lay})
     return out
 
 
